@@ -210,6 +210,7 @@ class Hang(Exception):
 
 
 HANGS = [0]
+MAX_FAILS = 20000
 LOOP_TIMEOUT = 3.0
 
 
@@ -1056,7 +1057,13 @@ def cases(rng, tier):
                             'explored breadth-first on the IMPLEMENTATION: %d distinct states (heap array layout, counters up to order, flags, '
                             'task times relative to the clock, up to task renaming) each extended by all 27 letters; the same to length %d over '
                             '{plain, raising, plain, plain-with-callback-suspending-task-0}: %d states x 27 letters%s; the 4-task exploration again to length %d with a '
-                            'clock unit of 2^-22 s (%d states)' % (d4 + 1, n4, d3 + 1, n3, note3, (5 if not big else 7) + 1, nf))
+                            'clock unit of 2^-22 s (%d states) and to length %d with 2^-25 s (%d states); 42 never-early boundary histories (clock 0.03 .. 1.4 us '
+                            'before / between / on due times, exact floats, clocks 0, 1000 s, 1.7e9 s)' % (d4 + 1, n4, d3 + 1, n3, note3, (5 if not big else 7) + 1, nf, (4 if not big else 6) + 1, nf2))
+    # raw sample that does not use the reduction: uniformly drawn histories of length 7 over the same 4 tasks and 27 letters
+    ralpha4 = rel_alphabet(4)
+    for n in range(300 if not big else 5000):
+        seq = [rng.choice(ralpha4) for _ in range(7)]
+        out.append(mk_case('S-raw-sample-len7-4tasks', plain4, resolve_rel(seq) + FLUSH, 'int' if n % 3 else 'fine', 1))
     # (C) callbacks that install / re-install / suspend / resume themselves or the other task
     alpha2 = alphabet(2)
     single = [()] + [(a,) for a in act_alphabet(2)]
@@ -1162,6 +1169,8 @@ def check_history(cfg, ops, mode, fails, stats):
     fired_any = False
 
     def fail(kind, **kw):
+        if len(fails) >= MAX_FAILS:          # badly broken tree: enough evidence, keep the check fast
+            return
         d = dict(desc); d['kind'] = kind; d.update(kw)
         fails.append(d)
 
